@@ -16,7 +16,7 @@ RULE = ('SubmitSm values accepted by the constructor, queued one after the other
         'GSM (with extension characters), UCS2 (with astral characters) and mixed text, with auto_message_payload on/off, UDHI bit '
         'on/off, explicit encodings; default alphabets gsm0338 / ucs2 / ascii / latin_1. Each message is followed by a plain one, '
         'which must be transmitted; plus whole queues (3..15 messages handed to the broker at once) compared with the loop model on the '
-        'generators\' state. distinct-nontrivial = distinct (default alphabet, auto_message_payload, UDHI, explicit '
+        'generators\' state, including a sequence generator that runs past the largest SMPP sequence number in the middle of a queue. distinct-nontrivial = distinct (default alphabet, auto_message_payload, UDHI, explicit '
         'encoding class, text class, outcome: number of PDUs or error class)')
 TRUSTED = ['Lean 4.33.0 kernel', 'axioms: propext, Quot.sound, Classical.choice',
            'tools/extract.py gen_catch (the isinstance tuple of _dequeue_messages by AST; class hierarchy from the interpreter)',
@@ -235,9 +235,11 @@ def predicate(o, m=None):
     return None
 
 
-def queue_case(rng, default, n):
+def queue_case(rng, default, n, highseq=None):
     """a whole queue handed to the broker at once: the Sender works through it with the sequence-number and reference
-    generators in whatever state they are; model line txq = the loop model on the same generator state"""
+    generators in whatever state they are; model line txq = the loop model on the same generator state.
+    highseq = k: the application's sequence generator is configured up to 0xFFFFFFFF and stands k numbers before the
+    largest number SMPP allows, so the messages after the k-th draw a number `assert_valid_sequence` refuses"""
     items = []
     while len(items) < n:
         g = gen_message(rng)
@@ -269,6 +271,9 @@ def queue_case(rng, default, n):
                     break
                 await asyncio.sleep(0.01)
             sg, rg = s.esme.sequence_generator, s.esme._ref_seq_generator
+            if highseq is not None:
+                sg.max_num = 0xFFFFFFFF
+                sg.sequence_num = 0x7FFFFFFF - highseq
             res['gens'] = (sg.min_num, sg.max_num, sg.sequence_num, rg.sequence_num)
             res['nconn'] = len(s.smsc.conns)
             for m in items:
@@ -318,14 +323,17 @@ def queue_case(rng, default, n):
             outs.append('sent %s' % hexes)
     gens = res.get('gens', (1, 0x7FFFFFFF, 1, 0))
     line = 'txq %s %d %d %d %d %s' % (L.enc_triple(default), gens[0], gens[1], gens[2], gens[3], ' | '.join(lines))
-    sig = ('txq', default, n, sum(1 for ps, es in per if es), sum(1 for ps, es in per if len(ps) > 1))
-    return Case(line, ' / '.join(outs), sig, fail, {'op': 'txq', 'default': default, 'lines': lines, 'gens': list(gens)})
+    sig = ('txq', default, n, sum(1 for ps, es in per if es), sum(1 for ps, es in per if len(ps) > 1), highseq is not None)
+    return Case(line, ' / '.join(outs), sig, fail, {'op': 'txq', 'default': default, 'lines': lines, 'gens': list(gens),
+                                                   'highseq': highseq})
 
 
 def generate(rng, tier):
     thorough = tier == 'thorough'
     for _ in range(12 if thorough else 4):
         yield queue_case(rng, rng.choice(('gsm0338', 'gsm0338', 'ucs2', 'latin_1')), rng.choice((3, 8, 15)))
+    for k in ((0, 1, 2, 5) if thorough else (0, 2)):
+        yield queue_case(rng, 'gsm0338', 6, highseq=k)
     for _ in range(36 if thorough else 9):
         default = rng.choice(('gsm0338', 'gsm0338', 'ucs2', 'ascii', 'latin_1'))
         items = []
